@@ -136,7 +136,7 @@ func comparePath(clientRaw, stubRaw string) ([]diff, pathObs) {
 		switch {
 		case strings.TrimSuffix(cd, "/") == strings.TrimSuffix(sd, "/"):
 			feat = "trailing-slash"
-		case strings.Contains(cd, "//") || strings.Contains(cd, "/.") :
+		case strings.Contains(cd, "//") || strings.Contains(cd, "/."):
 			feat = "dot-or-empty-segment"
 		case strings.Contains(clientRaw, "%"):
 			feat = "escaped"
@@ -255,6 +255,10 @@ func compareRequestHeaders(x *Exchange, got []bed.RawHeader, peerIP string, upgr
 		feat := nameClass(n)
 		if len(wv) > 1 {
 			feat += "/multi-valued"
+		}
+		if n == "x-forwarded-for" {
+			out = append(out, diff{"request-header/" + kind + "/" + feat, fmt.Sprintf("X-Forwarded-For: client sent %q from peer %s, so the upstream must receive %q; it received %q", cm[n], peerIP, wv, gv)})
+			continue
 		}
 		out = append(out, diff{"request-header/" + kind + "/" + feat, fmt.Sprintf("request header %s: client sent %q, upstream received %q", n, wv, gv)})
 	}
